@@ -132,7 +132,7 @@ integer_to_hex(Integer value, Result& result)
 
 // fast exponent
 template <typename Result>
-void fill_exponent(int K, Result& result)
+void fill_exponent(long long K, Result& result)
 {
     if (K < 0)
     {
@@ -175,7 +175,8 @@ void prettify_string(const char *buffer, int length, int k, int min_exp, int max
        kk is such that 10^(kk-1) <= v < 10^kk
        this way kk gives the position of the decimal point.
     */
-    int kk = nb_digits + k;
+    // 64 bit: k may be close to INT_MAX or INT_MIN (e.g. a CBOR decimal fraction exponent)
+    const long long kk = static_cast<long long>(nb_digits) + k;
 
     if (nb_digits <= kk && kk <= max_exp)
     {
@@ -201,14 +202,14 @@ void prettify_string(const char *buffer, int length, int k, int min_exp, int max
             result.push_back(buffer[i]);
         }
         result.push_back('.');
-        for (int i = kk; i < nb_digits; ++i)
+        for (int i = static_cast<int>(kk); i < nb_digits; ++i)
         {
             result.push_back(buffer[i]);
         }
     } 
     else if (min_exp < kk && kk <= 0)
     {
-        offset = 2 - kk;
+        offset = 2 - static_cast<int>(kk);
 
         result.push_back('0');
         result.push_back('.');
